@@ -12,8 +12,8 @@ from common import Check, main_wrapper
 def main():
     ck = Check("C03", "translation_validation")
     ck.lean_stage(["VelaVerif.Props.C03"])
-    outs, lines, owners, answers = stream_checks.run(ck, "C03", 320, 6000,
-                                                     ["cascade", "cascade_chain", "weights", "lut", "elementwise", "mixed", "pattern", "cpu", "pattern", "pattern"],
+    outs, lines, owners, answers = stream_checks.run(ck, "C03", 384, 7200,
+                                                     ["cascade", "cascade_chain", "weights", "lut", "elementwise", "mixed", "pattern", "cpu", "pattern", "cascade_lut", "pattern:reshape_fork", "pattern"],
                                                      want=("stream", "inference"))
     programs = 0
     nontrivial = set()
